@@ -9,8 +9,9 @@ ids=$(ls cfg | sed 's/\.json$//')
 ( cd lean
   for id in $ids; do
     lo=$(echo $id | tr 'A-Z' 'a-z')
-    drv=$(python3 -c "import json;print(json.load(open('../cfg/$id.json')).get('driver','drv_$lo'))")
-    lake build SR.Props.$id $drv 2>&1 | grep -E "error|Build completed" | tail -3
+    drv=$(python3 -c "import json;c=json.load(open('../cfg/$id.json'));print(' '.join(sorted({c.get('driver','drv_$lo')}|{h['driver'] for h in c.get('harness',[]) if h.get('driver')})))")
+    pfs=$(python3 -c "import json;c=json.load(open('../cfg/$id.json'));print(' '.join('SR.Props.'+p for p in c.get('props_files',['$id'])))")
+    lake build $pfs $drv 2>&1 | grep -E "error|Build completed" | tail -3
   done )
 cp /repo/Cargo.lock harness/Cargo.lock 2>/dev/null || true
 ( cd harness
